@@ -57,7 +57,7 @@ func c12RepoBind() *c12BindCfg {
 			{Rel: "driver", Fn: "valuesToBindings"},
 			{Rel: "driver", Fn: "namedValuesToBindings"},
 			{Rel: "sql/planbuilder", Fn: "Builder.SetBindings", KeyIsKey: true, Via: modPath + "/sql/planbuilder.Builder.buildScalar"},
-			{Rel: "", Fn: "Engine.bindExecuteQueryNode", Exception: c12B1ExecExceptions},
+			{Rel: "", Fn: "Engine.bindExecuteQueryNode", Exception: c12B1ExecExceptions, RawGetter: modPath + "/sql.Session.GetUserVariable"},
 		},
 		ctxRel: "sql/planbuilder", builderType: "Builder", ctxField: "bindCtx", ctxType: "BindvarContext", mapField: "Bindings",
 		ctxWriters: []string{"Builder.SetBindings", "Builder.SetBindingsWithExpr", "Builder.Reset", "Builder.buildPrepare"},
@@ -80,17 +80,16 @@ func init() {
 			"(A1) the parser tree a session caches for a prepared statement (C11-G3: an AST, never a plan) is read-only on the way every execution takes: in the root package, sql/planbuilder, server and driver no assignment, " +
 			"op-assignment, ++/--, copy/delete/clear writes memory that belongs to a vitess sqlparser node through a reference that was not allocated in the same function (a pointer parameter that every caller fills with the " +
 			"address of its own struct copy counts as allocated); idempotent rewrites are named exceptions; (A2) no sqlparser node method that stores into its receiver is called on such a node. A violated clause makes the second " +
-			"EXECUTE build a different statement than the text (demonstrated: NATURAL JOIN column list frozen at first execution; `_charset'…' COLLATE x` loses COLLATE). " +
+			"EXECUTE build a different statement than the text (demonstrated: NATURAL JOIN column list frozen at first execution; `_charset'…' COLLATE x` loses COLLATE; EXECUTE … USING @point fails where the inline @point works). " +
 			"(B1) every converter loop (wire/API bindings -> AST literals in server and driver; AST literals -> expressions in Builder.SetBindings; EXECUTE … USING variables in Engine.bindExecuteQueryNode) is total on all CFG paths: an " +
 			"iteration stores an entry for its binding or returns a non-nil error, error results are bound and tested with the non-nil edge leaving, the entry keeps its name, derives from the binding, and SetBindings builds it with " +
-			"Builder.buildScalar — the function that builds inline literals; (B2) one substitution mechanism: Builder.bindCtx is assigned and BindvarContext built only by SetBindings/SetBindingsWithExpr/Reset/buildPrepare, its Bindings " +
+			"Builder.buildScalar — the function that builds inline literals; a user variable named in EXECUTE … USING reaches its entry with the value and type GetUserVariable returned (no conversion in between: the inline @v evaluates to the stored value); (B2) one substitution mechanism: Builder.bindCtx is assigned and BindvarContext built only by SetBindings/SetBindingsWithExpr/Reset/buildPrepare, its Bindings " +
 			"map is indexed only in GetSubstitute (which returns exactly the map's comma-ok answer), called only by normalizeValArg, where every 'binding absent' edge ends in handleErr (a single panic) and success returns the looked-up " +
 			"value; placeholder expressions (NewBindVar) are built only on paths with bindCtx == nil, resolve-only mode, or a declined substitution; (B3) every function of root/server/driver that receives bindings " +
 			"(map[string]*BindVariable, map[string]sqlparser.Expr, driver argument slices, *mysql.PrepareData) passes them or their conversion to every callee that takes bindings: SQL EXECUTE, the bindings API and COM_STMT_EXECUTE reach the same " +
 			"planbuilder substitution with nothing dropped.",
 		NotCovered: "equality of results and effects between the bound and the inlined execution (depends on the values: typing of a bound literal vs. the same literal in text, e.g. what vitess' ExprFromValue produces for a wire type, " +
-			"is outside the analysed module); conversions applied to EXECUTE … USING user variables (bindExecuteQueryNode converts the stored value with the promoted approximate type: a POINT variable arrives as a byte string — " +
-			"observed, value-level, no structural clause claimed); stores into the cached tree made inside vitess itself, through reflection, through sub-objects copied from the cached tree into a freshly allocated node, or by " +
+			"is outside the analysed module); stores into the cached tree made inside vitess itself, through reflection, through sub-objects copied from the cached tree into a freshly allocated node, or by " +
 			"packages outside the four listed (sql/procedures rewrites procedure-body statements, sql/stats freshly parsed column types: listed as information); idempotence of the named A1 exceptions is argued by reading, not decided; " +
 			"unused-binding accounting; the name scheme v1…vN shared by parser and converters; plan caches (C11) and session snapshot freshness (C17).",
 		Technique: "who-may-write over go/types with allocation-site freshness + caller-copy resolution; CFG all-paths store-or-fail and never-returns-after-absent; who-reads/who-builds of the bind context; gate facts on CFG edges; data-dependence closure for forwarding",
